@@ -202,7 +202,7 @@ def get_atom_lines_from_pdb(
             residue_name = line[12: 16]
             residue_number = line[21: 27]
             # check if we want this residue
-            if line[17: 20] in ignore_residues:
+            if line[17: 20].strip() in ignore_residues:
                 continue
             if chains and line[21] not in chains:
                 continue
